@@ -238,3 +238,8 @@ fn decode_length_prefixed(src: &mut BytesMut) -> Option<Bytes> {
         None
     }
 }
+
+#[cfg(kani)]
+pub(crate) mod verif {
+    include!(concat!(env!("LIBP2P_VERIF"), "/hooks/noise_io_framed.rs"));
+}
